@@ -455,7 +455,7 @@ fn c14_case(ctx: &mut Ctx, n: usize, kfail: usize, stdin_kind: &str, term: &str,
 }
 
 pub fn run_c13(ctx: &mut Ctx) {
-    let n = ctx.n(240, 5000);
+    let n = ctx.n(1000, 5000);
     ctx.family("pipelines", n, c13_case);
 }
 
@@ -469,9 +469,6 @@ pub fn run_c14(ctx: &mut Ctx) {
                 for t in TERMS {
                     for (ei, e) in EARLIER.iter().enumerate() {
                         for det in [false, true] {
-                            if ctx.quick() && det && ei != 0 {
-                                continue;
-                            }
                             tuples.push((n, kf, s, t, *e, det));
                         }
                     }
